@@ -554,3 +554,121 @@ Example C12_source_ex :
                (mkstream (Hdr false (Some (1, None, 7))) 10 [[0; 1; 2]; []; [3]; [4; 5; 6]]))
   = Some [Blk [0] false (Some (An 10 2 None 7)); Blk [2] false (Some (An 11 2 None 7)); Blk [4] false (Some (An 12 2 None 7))].
 Proof. exact source_ex. Qed.
+
+(* ==================== TRANSLATOR TIE, second batch (added): rms, event_rate, transform, mc_reference, iirfilter ====================
+   Same construction as above.  rms: the source keeps a counter out_s0 the model does not have (the model recomputes the s0
+   of every emitted block from the samples it holds); the tie is a SIMULATION (sim_res) under the explicit state relation
+   rms_rel: equal held chunks and sample count, and the counter, once set, equals s0div of the s0 of the first held
+   block.  The relation holds initially (rms_rel_init), is kept by every step, is satisfiable on a non-initial state
+   (C12_source_ex_rms_rel) and is needed (C12_source_rms_step_refuted).  The float arithmetic on s0 (s0 / n, out_s0 +
+   n_blocks) is read exactly, once as (s / n, +) - the model's rms_step, exact when n divides the first s0 - and once
+   with s0 kept in input samples, (s, + n * k) - the model's rms_step_x, for every first s0. *)
+Theorem C12_source_rms_step : forall (A O : Type) (agg : list A -> O) n g m (chunk : blk A), 1 <= n ->
+  rms_rel (fun s => s / n) g m ->
+  sim_res (rms_rel (fun s => s / n)) (rms_gen_step agg (fun s => s / n) Z.add n g chunk) (rms_step true agg n m chunk).
+Proof. exact @rms_tie_div. Qed.
+Print Assumptions C12_source_rms_step.
+Theorem C12_source_rms_x_step : forall (A O : Type) (agg : list A -> O) n g m (chunk : blk A), 1 <= n ->
+  rms_rel (fun s => s) g m ->
+  sim_res (rms_rel (fun s => s)) (rms_gen_step agg (fun s => s) (fun t k => t + n * k) n g chunk)
+          (rms_step_x true agg n m chunk).
+Proof. exact @rms_tie_x. Qed.
+Print Assumptions C12_source_rms_x_step.
+Theorem C12_source_rms_step_refuted : exists (g : option (list (blk Z) * Z * option Z)) (m : rms_st Z) (chunk : blk Z),
+  (match g with Some (d, s, _) => m = RmsSt d s | None => False end) /\
+  ~ sim_res (rms_rel (fun s => s / 2)) (rms_gen_step (sagg 2) (fun s => s / 2) Z.add 2 g chunk) (rms_step true (sagg 2) 2 m chunk).
+Proof. exact rms_tie_refuted. Qed.
+Print Assumptions C12_source_rms_step_refuted.
+Example C12_source_ex_rms_rel : rms_rel (fun s => s / 2) (Some ([Blk [0] false (Some (An 10 1 None 7))], 1, Some 5))
+                                        (RmsSt [Blk [0] false (Some (An 10 1 None 7))] 1).
+Proof. exact rms_rel_ex. Qed.
+Theorem C12_source_rms_values_any : forall (A O : Type) (agg : list A -> O) n h s (ds : list (list A)), 1 <= n ->
+  emits_values (run (rms_gen_step agg (fun s0 => s0 / n) Z.add n) None (mkstream h s ds)) (rms_blocks agg n (concat ds)).
+Proof. exact @source_rms_values_any. Qed.
+Print Assumptions C12_source_rms_values_any.
+Theorem C12_source_rms_contiguous_any : forall (A O : Type) (agg : list A -> O) n h s (ds : list (list A)), 1 <= n -> (n | s) ->
+  emits_contiguous (run (rms_gen_step agg (fun s0 => s0 / n) Z.add n) None (mkstream h s ds)) (h_scale n h) (s / n).
+Proof. exact @source_rms_contiguous_any. Qed.
+Print Assumptions C12_source_rms_contiguous_any.
+Theorem C12_source_rms_x_values_any : forall (A O : Type) (agg : list A -> O) n h s (ds : list (list A)), 1 <= n ->
+  emits_values (run (rms_gen_step agg (fun s0 => s0) (fun t k => t + n * k) n) None (mkstream h s ds))
+               (rms_blocks agg n (concat ds)).
+Proof. exact @source_rms_x_values_any. Qed.
+Print Assumptions C12_source_rms_x_values_any.
+Theorem C12_source_rms_x_contiguous_any : forall (A O : Type) (agg : list A -> O) n h s (ds : list (list A)), 1 <= n ->
+  exists st outs, run (rms_gen_step agg (fun s0 => s0) (fun t k => t + n * k) n) None (mkstream h s ds) = Some (st, outs) /\
+                  contiguous_x n (h_scale n h) s outs.
+Proof. exact @source_rms_x_contiguous_any. Qed.
+Print Assumptions C12_source_rms_x_contiguous_any.
+
+(* event_rate: generated step = the repaired er_step (left-over trimmed on the left only), every state, every Events chunk *)
+Theorem C12_source_event_rate_step : forall bsz stp (s : option er_st) (chunk : events),
+  event_rate_gen_step bsz stp (option_map (fun st => (er_ev st, er_s0x2 st)) s) chunk
+  = lift (option_map (fun st => (er_ev st, er_s0x2 st))) (er_step true bsz stp s chunk).
+Proof. exact event_rate_tie. Qed.
+Print Assumptions C12_source_event_rate_step.
+Theorem C12_source_event_rate_causal_spec : forall bsz stp lo (cs : list events),
+  0 <= bsz -> 1 <= stp -> cs <> [] -> causal lo cs ->
+  exists st outs, run (event_rate_gen_step bsz stp) None cs = Some (st, outs) /\
+    concat (map r_counts outs) = event_rates bsz stp (ev_all cs) lo (ev_end lo cs) /\
+    r_contiguous (2 * lo + bsz) stp outs.
+Proof. exact source_event_rate_causal_spec. Qed.
+Print Assumptions C12_source_event_rate_causal_spec.
+Theorem C12_source_event_rate_causal_chunk_invariant : forall bsz stp lo (cs1 cs2 : list events),
+  0 <= bsz -> 1 <= stp -> cs1 <> [] -> cs2 <> [] -> causal lo cs1 -> causal lo cs2 ->
+  Permutation (ev_all cs1) (ev_all cs2) -> ev_end lo cs1 = ev_end lo cs2 ->
+  exists st1 o1 st2 o2,
+    run (event_rate_gen_step bsz stp) None cs1 = Some (st1, o1) /\
+    run (event_rate_gen_step bsz stp) None cs2 = Some (st2, o2) /\
+    concat (map r_counts o1) = concat (map r_counts o2).
+Proof. exact source_event_rate_causal_chunk_invariant. Qed.
+Print Assumptions C12_source_event_rate_causal_chunk_invariant.
+Theorem C12_source_event_rate_values_any : forall bsz stp lo (cs : list events),
+  0 <= bsz -> 1 <= stp -> cs <> [] -> ev_stream_any lo cs ->
+  exists st outs, run (event_rate_gen_step bsz stp) None cs = Some (st, outs) /\
+    concat (map r_counts outs) = event_rates bsz stp (ev_all cs) lo (ev_end lo cs).
+Proof. exact source_event_rate_values_any. Qed.
+Print Assumptions C12_source_event_rate_values_any.
+Theorem C12_source_event_rate_contiguous_any : forall bsz stp lo (cs : list events),
+  0 <= bsz -> 1 <= stp -> cs <> [] -> ev_stream_any lo cs ->
+  exists st outs, run (event_rate_gen_step bsz stp) None cs = Some (st, outs) /\ r_contiguous (2 * lo + bsz) stp outs.
+Proof. exact source_event_rate_contiguous_any. Qed.
+Print Assumptions C12_source_event_rate_contiguous_any.
+
+(* transform, mc_reference, iirfilter: generated step = model step, every state, every chunk *)
+Theorem C12_source_transform_step : forall (A O : Type) (g : A -> O) (s : unit) (chunk : blk A),
+  transform_gen_step g s chunk = map_step g s chunk.
+Proof. exact @transform_tie. Qed.
+Print Assumptions C12_source_transform_step.
+Theorem C12_source_mc_reference_step : forall (Col : Type) (g : Col -> Col) (s : unit) (chunk : blk Col),
+  mc_reference_gen_step g s chunk = map_step g s chunk.
+Proof. exact (fun Col => @mc_reference_tie Col Col). Qed.
+Print Assumptions C12_source_mc_reference_step.
+Theorem C12_source_iirfilter_step : forall (F A : Type) (filt : F -> A -> F * A) (finit : A -> F) (s : option F) (chunk : blk A),
+  iirfilter_gen_step filt finit s chunk = iir_step_e true filt finit s chunk.
+Proof. exact @iirfilter_tie. Qed.
+Print Assumptions C12_source_iirfilter_step.
+Theorem C12_source_transform_values_any : forall (A O : Type) (g : A -> O) h s (ds : list (list A)),
+  emits_values (run (transform_gen_step g) (transform_gen_init g) (mkstream h s ds)) (map g (concat ds)).
+Proof. exact @source_transform_values_any. Qed.
+Print Assumptions C12_source_transform_values_any.
+Theorem C12_source_transform_contiguous_any : forall (A O : Type) (g : A -> O) h s (ds : list (list A)),
+  emits_contiguous (run (transform_gen_step g) (transform_gen_init g) (mkstream h s ds)) h s.
+Proof. exact @source_transform_contiguous_any. Qed.
+Print Assumptions C12_source_transform_contiguous_any.
+Theorem C12_source_mc_reference_values_any : forall (Col : Type) (g : Col -> Col) h s (ds : list (list Col)),
+  emits_values (run (mc_reference_gen_step g) (mc_reference_gen_init g) (mkstream h s ds)) (map g (concat ds)).
+Proof. exact (fun Col => @source_mc_reference_values_any Col Col). Qed.
+Print Assumptions C12_source_mc_reference_values_any.
+Theorem C12_source_mc_reference_contiguous_any : forall (Col : Type) (g : Col -> Col) h s (ds : list (list Col)),
+  emits_contiguous (run (mc_reference_gen_step g) (mc_reference_gen_init g) (mkstream h s ds)) h s.
+Proof. exact (fun Col => @source_mc_reference_contiguous_any Col Col). Qed.
+Print Assumptions C12_source_mc_reference_contiguous_any.
+Theorem C12_source_iirfilter_values_any : forall (A F : Type) (filt : F -> A -> F * A) finit h s (ds : list (list A)),
+  emits_values (run (iirfilter_gen_step filt finit) None (mkstream h s ds)) (iir_filtered filt finit (concat ds)).
+Proof. exact (fun A F => @source_iirfilter_values_any F A). Qed.
+Print Assumptions C12_source_iirfilter_values_any.
+Theorem C12_source_iirfilter_contiguous_any : forall (A F : Type) (filt : F -> A -> F * A) finit h s (ds : list (list A)),
+  emits_contiguous (run (iirfilter_gen_step filt finit) None (mkstream h s ds)) h s.
+Proof. exact (fun A F => @source_iirfilter_contiguous_any F A). Qed.
+Print Assumptions C12_source_iirfilter_contiguous_any.
